@@ -283,11 +283,11 @@ CHECKS["C01"] = dict(
     engine="tlc+replay+corpus-differential",
 )
 CHECKS["C10"] = dict(
-    built=False,
-    na_reason="check built (J2O_Transform + registry-wide transformed exports) but its findings on the unchanged tree are still being triaged; not claimed until every alarm is either repaired or listed",
+    built=True,
     category="exploration",
-    technique="TLA+ spec J2O_Transform (meaning of jit / remat / vmap(in_axes,out_axes) / jvp / grad / custom_jvp on exact polynomial templates, laws as invariants) checked by TLC; every case executed on a real export of the transformed template; vmap / jit / remat / grad / jvp applied to registered callables and compared with JAX's own evaluation of the transformed callable",
+    technique="TLA+ spec J2O_Transform (meaning of jit / remat / vmap(in_axes,out_axes) / jvp / grad / custom_jvp on exact polynomial templates, laws as invariants) checked by TLC; every case executed on a real export of the transformed template; TLA+ spec J2O_Batching (axis-parameterised operators under vmap: sound batching rules hold, deviating ones are rejected) with every (operator, axis, batch position, out axis) case executed for every registered library spelling; vmap / jit / warm jit / remat / grad / jvp applied to registered callables and compared with JAX's own evaluation of the transformed callable",
     text=(
+        "J2O_Batching specifies vmap(op(axis), in_axes=bd, out_axes=ob) as slice-apply-stack for operators with an axis parameter on integer tensors (sum, max, argmax, cumsum, cummax, flip, sort), proves two implementation-shaped batching rules (move-to-front, in-place axis shift) sound and two deviating ones (axis kept, axis canonicalised against the batched rank) unsound, and emits all 432 cases with exact expected tensors: each is exported for every registered spelling (jnp / lax) and ORT must return the predicted tensor; ~45 further axis-parameterised functions (softmax, log_softmax, standardize, logsumexp, glu, cumprod, cummin, argmin, one_hot, roll, take, repeat, concatenate, norm, top_k ...) run on the same grid with the specification of vmap as oracle (per-example eager evaluation, stacked). "
         "J2O_Transform defines jit, nested jit and remat as identity, vmap as slice-apply-stack along in_axes/out_axes, jvp/grad through the templates' Jacobians and custom_jvp through the user's rule, on polynomial maps over "
         "integer vectors (all values exact); TLC checks linearity of jvp, grad = transposed jvp and layout-freedom of vmap of elementwise maps over all cases, and every case is executed on a real export of the transformed "
         "template (specification = JAX = ORT, exact). Registry-wide: each sampled registered callable f (quick 170, thorough all static ones) is wrapped in vmap, jit, (remat), grad, (jvp); whenever JAX evaluates T(f) on the "
